@@ -51,6 +51,16 @@ def gen(ctx):
                 prior = rng.choice(["absent", "absent", "longer_dense", "same", "shorter"]) if size <= 8 * MiB else "absent"
                 cases.append(Case(size, data=data, driver=driver, workers=rng.choice([1, 2, 4, 16]), bs=bs,
                                   reflink=rng.choice(["auto", "never"]), prior=prior))
+    # options that say nothing about holes (durability, ownership, permissions, timestamps) on files of every density —
+    # a hole stays a hole under each of them
+    for (size, data) in lays[:11]:
+        for driver in ("parfile", "parblock"):
+            for flags in ([["--fsync"]] if quick else [["--fsync"], ["--ownership"], ["--no-perms", "--fsync"], ["--no-timestamps"]]):
+                if quick and rng.random() < 0.35:
+                    continue
+                cases.append(Case(size, data=data, driver=driver, workers=rng.choice([1, 2, 4]), bs=rng.choice([B, MiB, "noprogress"]),
+                                  reflink=rng.choice(["auto", "never"]), prior=rng.choice(["absent", "absent", "same"]), flags=flags,
+                                  label="neutral option"))
     # overwriting a fully allocated destination (longer, and of EXACTLY the source's length: a refreshed image), both drivers
     for driver in ("parfile", "parblock"):
         cases.append(Case(4 * MiB, data=[(MiB, MiB + B)], driver=driver, workers=2, bs=MiB, prior="longer_dense"))
@@ -91,7 +101,7 @@ def nontrivial(case, o):
 def run(ctx, out):
     out.rule = ("sparse ext4 files with holes >= 1 MiB (leading, trailing, interleaved, empty, 41 extents = two FIEMAP pages), "
                 "block sizes below/above segment sizes, both drivers, workers 1..16, fresh and fully allocated prior "
-                "destinations (longer, shorter, and of exactly the source's length); plus runs over FIVE sparse files at once (tree and multi-source) in which FIEMAP / FICLONE / "
+                "destinations (longer, shorter, and of exactly the source's length), with --fsync / --ownership / --no-perms / --no-timestamps on every density; plus runs over FIVE sparse files at once (tree and multi-source) in which FIEMAP / FICLONE / "
                 "copy_file_range is refused for one of them: the others must stay sparse; non-trivial = the source is classified "
                 "sparse by st_blocks; distinct = distinct case tuple")
     out.assumptions.append("C11: block allocation by ext4 for the written ranges is observed (st_blocks), not proved")
